@@ -16,6 +16,7 @@ type GenCfg struct {
 	Donate     bool // include plain bank sends to escrow accounts
 	Grants     bool // include authz grants, MsgExec-wrapped sends and signer != sender sends
 	SameDenom  bool // bias toward escrowing one denomination on several channels of one chain
+	Race       bool // include timeout-boundary race scripts (receive in the block whose time == timeout, timeout proven at exactly that height)
 }
 
 // GenSpec draws a world: 2 chains with every link kind, or a 3-chain triangle whose edges carry
@@ -64,8 +65,9 @@ func GenSpec(t *rapid.T) Spec {
 }
 
 type script struct {
-	ops  []Op
-	refs []int // per op: local index of the transfer op whose packet it refers to, or -1
+	ops    []Op
+	refs   []int // per op: local index of the transfer op whose packet it refers to, or -1
+	atomic bool  // emitted in one piece (its ops depend on the exact number of blocks in between)
 }
 
 func (s *script) add(op Op, ref int) int {
@@ -432,6 +434,49 @@ func scriptMismatch(t *rapid.T, spec Spec) *script {
 	return sc
 }
 
+// scriptRace: a transfer whose timeout (whole seconds, on the 5 s block grid of the shared
+// clock) coincides with the block time of a later destination block; the receive is delivered in
+// the block whose time equals the timeout (or the one before / after), then the timeout is
+// submitted with a proof at exactly that block's height, the one before and the one after. At most
+// one of receive and timeout may take effect.
+func scriptRace(t *rapid.T, spec Spec) *script {
+	sc := &script{atomic: true}
+	n := spec.Chains
+	c := rapid.IntRange(0, n-1).Draw(t, "racechain")
+	// prefer v2 / alias routes (timeouts in whole seconds), sometimes v1
+	rs := spec.PlanRoutes(c)
+	var v2idx, all []int
+	for i, r := range rs {
+		all = append(all, i)
+		if r.K != KV1 {
+			v2idx = append(v2idx, i)
+		}
+	}
+	if len(all) == 0 {
+		return sc
+	}
+	pool := all
+	if len(v2idx) > 0 && rapid.IntRange(0, 4).Draw(t, "racev2") > 0 {
+		pool = v2idx
+	}
+	li := rapid.SampledFrom(pool).Draw(t, "raceroute")
+	s := rapid.IntRange(0, NAcct-1).Draw(t, "races")
+	op := Op{K: "transfer", C: c, L: li, S: s, Sig: s, R: rapid.IntRange(0, NAcct-1).Draw(t, "racer"),
+		Pref: rapid.SampledFrom([]int{3, 3, 1}).Draw(t, "racepref"), Amt: rapid.Int64Range(1, 3000).Draw(t, "raceamt"),
+		TT:  5 * rapid.IntRange(4, 8).Draw(t, "racek"),
+		Via: rapid.IntRange(0, 1).Draw(t, "racevia"), Enc: rapid.IntRange(0, 2).Draw(t, "raceenc")}
+	ti := sc.add(op, -1)
+	sc.add(Op{K: "erecv", HD: rapid.SampledFrom([]int{0, 0, 0, -1, 1}).Draw(t, "recvhd"), Pre: rapid.Bool().Draw(t, "pre"), Sig: genSigner(t)}, ti)
+	hds := rapid.SampledFrom([][]int{{0}, {0, 1}, {-1, 0}, {-1, 0, 1}, {1, 0}, {0, -1}}).Draw(t, "tohds")
+	for _, hd := range hds {
+		sc.add(Op{K: "etimeout", HD: hd, Sig: genSigner(t)}, ti)
+	}
+	if rapid.Bool().Draw(t, "raceack") {
+		sc.add(Op{K: "ack", H: -1, Sig: genSigner(t)}, ti)
+	}
+	return sc
+}
+
 // merge interleaves scripts at random, preserving the order inside each script, and rewrites
 // packet references to global step numbers.
 func merge(t *rapid.T, scripts []*script) []Op {
@@ -454,6 +499,9 @@ func merge(t *rapid.T, scripts []*script) []Op {
 		i := live[rapid.IntRange(0, len(live)-1).Draw(t, "next")]
 		// run a short burst of the chosen script so that scenarios make progress
 		burst := rapid.IntRange(1, 3).Draw(t, "burst")
+		if scripts[i].atomic {
+			burst = len(scripts[i].ops)
+		}
 		for b := 0; b < burst && pos[i] < len(scripts[i].ops); b++ {
 			s := scripts[i]
 			op := s.ops[pos[i]]
@@ -474,7 +522,7 @@ func GenHistory(t *rapid.T, cfg GenCfg) History {
 		cfg.MaxScripts = 2
 	}
 	lo := 2
-	if cfg.Grants {
+	if cfg.Grants || cfg.Race {
 		lo = 3
 	}
 	ns := rapid.IntRange(lo, cfg.MaxScripts).Draw(t, "nscripts")
@@ -483,6 +531,9 @@ func GenHistory(t *rapid.T, cfg GenCfg) History {
 		kinds := []string{"route", "route", "fail", "fail", "noise", "fan"}
 		if cfg.SameDenom {
 			kinds = append(kinds, "fan", "fan")
+		}
+		if cfg.Race {
+			kinds = append(kinds, "race")
 		}
 		if cfg.Grants {
 			kinds = []string{"route", "fail", "noise", "authz", "authz", "mismatch"}
@@ -503,7 +554,12 @@ func GenHistory(t *rapid.T, cfg GenCfg) History {
 		if i == 2 && cfg.Grants {
 			kind = "mismatch"
 		}
+		if i == 2 && cfg.Race {
+			kind = "race"
+		}
 		switch kind {
+		case "race":
+			scripts = append(scripts, scriptRace(t, h.Spec))
 		case "authz":
 			scripts = append(scripts, scriptAuthz(t, h.Spec))
 		case "mismatch":
